@@ -279,6 +279,12 @@ func r163(c *Ctx) {
 	// createCertManager is applied to the service's own options
 	okOwn := false
 	for _, cs := range callsTo(ini, ccm) {
+		if len(cs.common().Args) < 2 {
+			// no options parameter: the method reads the receiver's own options (every option read in it is then a field
+			// of s.options, which the rules above see through the field path)
+			okOwn = len(cs.common().Args) == 1 && cs.common().Args[0] == ssa.Value(ini.Params[0])
+			continue
+		}
 		if f, base, ok := fieldLoad(cs.common().Args[1]); ok && f.Name() == "options" && base == ssa.Value(ini.Params[0]) {
 			okOwn = true
 		}
